@@ -232,6 +232,12 @@ func (p *Prog) Field(rel, typ, field string) *types.Var {
 			return st.Field(i)
 		}
 	}
+	// a field promoted from an embedded struct of the same package (related fields grouped into a sub-struct)
+	if obj, _, _ := types.LookupFieldOrMethod(n, true, n.Obj().Pkg(), field); obj != nil {
+		if v, ok := obj.(*types.Var); ok && v.IsField() && v.Pkg() == n.Obj().Pkg() {
+			return v
+		}
+	}
 	return nil
 }
 
